@@ -50,6 +50,7 @@ class Knobs:
     adjacent_links_diff_anchor: float = 0.0  # D20
     xml_comment_in_props: float = 0.05  # comment inside rPr/pPr/tcPr
     cell_without_par: float = 0.0
+    num_dangling_abstract: float = 0.0  # a w:num pointing at an abstractNum that is not there (corrupt numbering part)
     nested_par_in_table: float = 0.0  # D27: text box inside a table cell
     nested_pars: float = 0.15  # text boxes
     # ordinary variety
@@ -88,6 +89,7 @@ class Gen:
         self.rid_counter = 0
         self.rid_by_part: dict[str, int] = {}
         self.reserved: dict[str, set] = {}
+        self.link_rids: dict[str, list] = {}
         self.comment_ids: list[str] = []
         self.note_refs: dict[str, list[str]] = {"footnote": [], "endnote": []}
         self.images: dict[str, bytes] = {}
@@ -395,7 +397,15 @@ class Gen:
         c = self.r.random()
         if c < 0.6:
             tgt = self.r.choice(["http://example.com/", "https://a.b/c?d=e&f=g", "mailto:x@y.z", ""])
-            attrs["r:id"] = self.add_rel("hyperlink", tgt, True)
+            seen = self.link_rids.setdefault(self.cur_part, [])
+            if seen and self.p(0.35):
+                # Word reuses one relationship for all links to one target: the same id with
+                # another (or no) anchor, elsewhere in the part
+                attrs["r:id"] = self.r.choice(seen)
+                self.feat("link_rid_reused")
+            else:
+                attrs["r:id"] = self.add_rel("hyperlink", tgt, True)
+                seen.append(attrs["r:id"])
             self.feat("link_resolved")
             if self.p(0.3):
                 attrs["w:anchor"] = self.r.choice(["top", "sec_1"])
@@ -773,7 +783,11 @@ class Gen:
         for i in range(self.r.randint(1, 3)):
             nid = str(i + 1)
             self.num_ids.append(nid)
-            num = self.E("w:num", {"w:numId": nid}, self.E("w:abstractNumId", {"w:val": str(self.r.randrange(n_abs))}))
+            an_ref = str(self.r.randrange(n_abs))
+            if self.p(self.k.num_dangling_abstract):
+                an_ref = "77"  # a list definition that is not there
+                self.feat("num_dangling_abstract")
+            num = self.E("w:num", {"w:numId": nid}, self.E("w:abstractNumId", {"w:val": an_ref}))
             root.append(num)
         self.feat("numbering_part")
         return root
@@ -876,6 +890,10 @@ def gen_package(rng: random.Random, knobs: Knobs | None = None, ns=None) -> Pkg:
             part_rels["comments"] = "word/_rels/comments.xml.rels"
     if has_numbering:
         doc_rels.append((doc_rid(), REL_T + "numbering", "numbering.xml", False))
+        if g.p(0.05):
+            # the relationship is listed but the part is not in the archive
+            del pkg.parts["word/numbering.xml"]
+            g.feat("numbering_part_missing")
     doc_rels.append((doc_rid(), REL_T + "styles", "styles.xml", False))
     pkg.parts["word/styles.xml"] = etree.Element(g.q("w", "styles"), nsmap={"w": g.ns["w"]})
     # relationships
